@@ -101,6 +101,12 @@ def gen_scenarios(ctx):
         add(0, [], a, is_async=True)
     add(0, [], pinned, in_cluster=False, is_async=True)
     add(0, [], att("pinned", resolve_ms=60), is_async=True)
+    # through the public entry points PID.SendSync / PID.SendAsync (resolution never succeeds, so no Ask is issued)
+    for mw in (120, 400):
+        scs.append({"n": len(scs), "max_wait_ms": mw, "in_cluster": True, "attempts": [], "tail": pinned, "cancel_ms": 0, "async": False, "deliver_err": False, "via_send": True})
+    scs.append({"n": len(scs), "max_wait_ms": 300, "in_cluster": True, "attempts": [], "tail": att("sendfail"), "cancel_ms": 0, "async": False, "deliver_err": False, "via_send": True})
+    for a in (pinned, att("sendfail"), att("pinned", resolve_ms=40)):
+        scs.append({"n": len(scs), "max_wait_ms": 0, "in_cluster": True, "attempts": [], "tail": a, "cancel_ms": 0, "async": True, "deliver_err": False, "via_send": True})
     # seeded random
     for _ in range(40 if ctx.thorough else 10):
         mw = rng.choice([0, 0, rng.randint(20, 900), rng.randint(60, 400), 3500])
